@@ -9,6 +9,7 @@ import Coma.Passes
 import Coma.Vector
 import Coma.Compare
 import Coma.Indel
+import Coma.Corr
 namespace Coma.Driver
 open Coma
 
@@ -228,6 +229,10 @@ def step (line : String) : String :=
       let stop := if kv.get "stop" = "none" then none else some (kv.int "stop")
       exc (vectorise (kv.ints "POS") (kv.int "res") (kv.int "start") stop) showBits
     | "BLUR" => exc (blur (pBits (kv.get "V")) (kv.int "radius")) showBits
+    | "CORR" =>
+      let r := pBits (kv.get "R")
+      let q := pBits (kv.get "Q")
+      ",".intercalate ((corrValid r q).map toString) ++ " N=" ++ ",".intercalate ((norm2 r q).map toString)
     | "TOBP" => toString (toBp (kv.int "bin") (kv.int "res") (kv.int "start"))
     | "SELECT" =>
       let sc := kv.ints "S"
